@@ -1,6 +1,6 @@
 (* From expressions to whole scripts: the main block, NewFrame / Return, and the byte-level VM. *)
 From Coq Require Import ZArith NArith List Bool Lia.
-From KV.comp Require Import Ast0 Sem0 Instr0 Comp0 VM0 Known0 InstrLemmas CompLemmas SimBase SimExpr.
+From KV.comp Require Import Ast0 Sem0 Instr0 Comp0 VM0 Known0 InstrLemmas CompLemmas SimBase SimExpr SimAll.
 Import ListNotations.
 Open Scope N_scope.
 Ltac Zify.zify_post_hook ::= Z.to_euclidean_division_equations.
